@@ -19,18 +19,28 @@ RUNS = {"quick": 4800, "thorough": 60000, "thorough_s": 400}
 CHUNK = 50
 RUN_TIMEOUT = 300.0
 APPROACH_EVERY = 12
+ORIENTED_EVERY, ORIENTED_AT = 200, 100
+FINDING = "C12.approach.label-orientation"
+DIGEST_EXTRA = (100, 300, 500, 700)        # label-layout / prepared-start runs, for the determinism self-test
 RULE = ("(a) the C11 rewiring scenarios with the removal axis stressed (pairings unused by existing edges made absent / "
         "zero / mixed in the target), prefix histories, every created edge checked against the target; (b) every "
         f"{APPROACH_EVERY}th run: network of 150-300 vertices from the real sampler + network generator under the scheduler "
         "(unclean outcomes rejected), strongly assortative or disassortative full-support target at L1 distance >= 0.5, "
-        "|E|/4 accepted swaps under uniform decisions, distance after < before; non-trivial = at least one accepted swap; "
+        "|E|/4 accepted swaps under uniform decisions, distance after < before; (c) every 200th run: directly built 2-clique "
+        "network of 1200-3500 edges with 2-4 degree classes, vertex labels in ascending / descending order of degree or "
+        "shuffled, mildly assortative / disassortative full-support target with the network's own marginals at >= 4x the "
+        "sampling noise, |E| accepted swaps, distance after < before; half of them start from neutral mixing, half from a "
+        "start the harness's own reference chain prepared BEYOND the target (so that drifting back to neutral mixing ends "
+        "farther away); a failure on a label-sorted network whose label-shuffled twin approaches is the open finding "
+        "C12.approach.label-orientation, any other failure is reported; non-trivial = at least one accepted swap; "
         "distinct = distinct execution digests")
 ASSUMPTIONS = ["approach clause is a bounded-progress observation configured far from the margin (not a theorem)",
                "existing edges keep positive target weight by construction",
                "decision budget exhaustion is inconclusive"]
 REAL = ["MarkovChainMonteCarloRewiring, DrawSet, JointExcessJointDegreeMatrices, KeysView",
         "JointDegreeManual.sample_jds_from_jdd + GCMAlgorithmNetwork + EdgeListToNetwork (approach phase)"]
-STUB = ["entropy source (decision stream)", "direct clean-network constructor (admissibility phase)", "target matrices (generated)"]
+STUB = ["entropy source (decision stream)", "direct clean-network constructor (admissibility phase, label-layout phase)",
+        "reference Metropolis chain that prepares non-neutral starts (harness code)", "target matrices (generated)"]
 
 JDDS = [
     {"topos": [{"kind": "clique", "size": 2, "name": "2-clique"}, {"kind": "clique", "size": 3, "name": "3-clique"}],
@@ -47,6 +57,24 @@ JDDS = [
 
 
 def generate(prng, tier, index):
+    if index % ORIENTED_EVERY == ORIENTED_AT:
+        degs, mult = prng.choice((((1, 2, 4), (4, 2, 1)), ((1, 3), (3, 1)), ((2, 3, 5), (15, 10, 6)), ((1, 2, 3, 4), (12, 6, 4, 3))))
+        unit = sum(d * k for d, k in zip(degs, mult))            # stubs per unit of m
+        m = max(2, prng.randrange(2400, 4001) // unit)           # 1200-2000 edges
+        if (unit * m) % 2:
+            m += 1
+        sc = {"variant": "clean", "kind": "oriented", "degs": list(degs), "mult": list(mult), "m": m,
+              "layout": prng.choice(("ascending", "descending", "shuffled", "shuffled")),
+              "mode": prng.choice(("assortative", "disassortative")), "frac": prng.choice((0.2, 0.25, 0.3)),
+              "build_seed": prng.randrange(2 ** 32), "search_limit": prng.choice((None, None, 20))}
+        if (index // ORIENTED_EVERY) % 2 == 1:
+            # start NEARER to the target than neutral mixing, on its far side: the harness's own reference chain first
+            # moves the network to a stronger target of the same kind (fraction prep), the library is then asked for
+            # the milder one (0.7 * prep).  An acceptance rule that only drifts back to neutral mixing ends farther away.
+            m = max(2, prng.randrange(4400, 7001) // unit)
+            sc.update(m=m + (unit * m) % 2, layout="shuffled", prep=prng.choice((0.6, 0.7, 0.8)))
+            sc["frac"] = round(0.7 * sc["prep"], 3)
+        return sc
     if index % APPROACH_EVERY == 0:
         cfg = prng.choice(JDDS)
         return {"variant": "clean", "kind": "approach", "topos": cfg["topos"], "jdd": cfg["jdd"],
@@ -60,6 +88,8 @@ def generate(prng, tier, index):
 def execute(sc, ctx):
     if sc.get("kind") == "approach":
         return execute_approach(sc, ctx)
+    if sc.get("kind") == "oriented":
+        return execute_oriented(sc, ctx)
     P = "C12"
     tgt = {name: {tuple(k): w for k, w in rows} for name, rows in sc["target"].items()}
     names = netsim.names(sc["spec"])
@@ -180,6 +210,197 @@ def execute_approach(sc, ctx):
     ctx.probe("approach_ratio_x1000_max_bucket_%d" % min(10, int(ratio * 10)))
 
 
+def class_weights(degs, mult, mode, frac):
+    """Target weight as a function of the two end DEGREES: the same family as mild_target(), from the exact excess
+    distribution q_d ~ d * (number of vertices of degree d)."""
+    tot = float(sum(d * k for d, k in zip(degs, mult)))
+    q = {d: d * k / tot for d, k in zip(degs, mult)}
+    if mode == "assortative":
+        s = frac
+        return lambda a, b: (1 - s) * q[a] * q[b] + (s * q[a] if a == b else 0.0)
+    s = frac * min(v / (1 - v) for v in q.values())
+    return lambda a, b: (1 + s) * q[a] * q[b] - (s * q[a] if a == b else 0.0)
+
+
+def prepare_start(rng, pairs, seen, deg_of, w, sweeps=12):
+    """Reference Metropolis chain of the harness (uniform pair of edges, corner of each drawn at random, accept with
+    min(1, w(new)/w(old)), simple graph kept): `sweeps` * |E| proposals."""
+    E = len(pairs)
+    for _ in range(sweeps * E):
+        i, j = rng.randrange(E), rng.randrange(E)
+        if i == j:
+            continue
+        a, b = pairs[i] if rng.random() < 0.5 else pairs[i][::-1]
+        c, d = pairs[j] if rng.random() < 0.5 else pairs[j][::-1]
+        if a == d or c == b:
+            continue
+        f1, f2 = frozenset((a, d)), frozenset((c, b))
+        if f1 in seen or f2 in seen or f1 == f2:
+            continue
+        r = (w(deg_of[a], deg_of[d]) * w(deg_of[c], deg_of[b])) / (w(deg_of[a], deg_of[b]) * w(deg_of[c], deg_of[d]))
+        if r >= 1.0 or rng.random() < r:
+            del seen[frozenset((a, b))]
+            del seen[frozenset((c, d))]
+            pairs[i], pairs[j] = (a, d), (c, b)
+            seen[f1], seen[f2] = i, j
+
+
+def build_blocks(sc):
+    """Simple 2-clique network with mult[i]*m vertices of degree degs[i], uniform stub matching repaired to a simple
+    graph (stub: not library code), vertex labels laid out by degree class as the scenario says."""
+    import random as _r
+    rng = _r.Random(sc["build_seed"])
+    stubs, n, deg_of = [], 0, {}
+    for d, k in zip(sc["degs"], sc["mult"]):
+        for _ in range(k * sc["m"]):
+            stubs += [n] * d
+            deg_of[n] = d
+            n += 1
+    rng.shuffle(stubs)
+    pairs = [(stubs[i], stubs[i + 1]) for i in range(0, len(stubs) - 1, 2)]
+    seen, bad = {}, []
+    for i, (a, b) in enumerate(pairs):
+        fs = frozenset((a, b))
+        if a == b or fs in seen:
+            bad.append(i)
+        else:
+            seen[fs] = i
+    tries = 0
+    while bad:
+        tries += 1
+        if tries > 200000:
+            return None, None
+        i = bad[-1]
+        j = rng.randrange(len(pairs))
+        if j == i or j in bad:
+            continue
+        (a, b), (c, d) = pairs[i], pairs[j]
+        f1, f2 = frozenset((a, d)), frozenset((c, b))
+        if a == d or c == b or f1 in seen or f2 in seen or f1 == f2:
+            continue
+        del seen[frozenset((c, d))]
+        pairs[i], pairs[j] = (a, d), (c, b)
+        seen[f1], seen[f2] = i, j
+        bad.pop()
+    if sc.get("prep"):
+        prepare_start(rng, pairs, seen, deg_of, class_weights(sc["degs"], sc["mult"], sc["mode"], sc["prep"]))
+    if sc["layout"] == "descending":
+        perm = list(range(n - 1, -1, -1))
+    elif sc["layout"] == "shuffled":
+        perm = list(range(n))
+        rng.shuffle(perm)
+    else:
+        perm = list(range(n))
+    topos = [{"kind": "clique", "size": 2, "name": "2-clique"}]
+    spec = {"n": n, "topos": topos, "motifs": [{"topo": 0, "verts": [perm[a], perm[b]]} for a, b in pairs]}
+    return spec, topos
+
+
+def mild_target(G, names, mode, frac):
+    """Full-support target with the network's own excess distribution q as marginals, a fraction `frac` of the way from
+    neutral mixing q q^T to the most assortative / most disassortative matrix with those marginals."""
+    cur = netsim.ref_ejks(G, names)
+    out = {}
+    for name in names:
+        m = cur[name]
+        h = len(next(iter(m))) // 2
+        q = {}
+        for k, w in m.items():
+            q[k[:h]] = q.get(k[:h], 0.0) + w
+        if mode == "assortative":
+            s = frac
+            out[name] = {a + b: (1 - s) * q[a] * q[b] + (s * q[a] if a == b else 0.0) for a in q for b in q}
+        else:
+            s = frac * min(v / (1 - v) for v in q.values())
+            out[name] = {a + b: (1 + s) * q[a] * q[b] - (s * q[a] if a == b else 0.0) for a in q for b in q}
+    return out
+
+
+def oriented_run(sc, ctx, stream):
+    """One rewiring of the scenario's network: (status, d0, d1, E, n) with status ok / skip / budget / raised."""
+    spec, topos = build_blocks(sc)
+    if spec is None:
+        return "skip", None, None, 0, 0
+    names = [t["name"] for t in topos]
+    net = netsim.build_network(spec)
+    G0 = net.G
+    E = G0.number_of_edges()
+    target = mild_target(G0, names, sc["mode"], sc["frac"])
+    before = netsim.ref_ejks(G0, names)
+    d0 = sum(netsim.l1_distance(before[n], target[n]) for n in names)
+    noise = 0.5 * (sum(len(target[n]) for n in names) / E) ** 0.5         # ~ measured L1 sampling noise at equilibrium
+    if d0 < 4 * noise:
+        return "skip", d0, None, E, G0.number_of_nodes()
+    ejks = JointExcessJointDegreeMatrices({ToolsNames.EJKS: target, ToolsNames.EDGE_NAMES: names})
+    limit = E
+    p = {ToolsNames.NETWORK: net, ToolsNames.EJKS: ejks, ToolsNames.CONVERGENCE_LIMIT: limit}
+    if sc.get("search_limit") is not None:
+        p[ToolsNames.SEARCH_LIMIT] = sc["search_limit"]
+    rsrc = ctx.source(stream)
+    try:
+        mc = MarkovChainMonteCarloRewiring(p)
+    except Exception as e:
+        ctx.violate("C12.raised", f"constructing the rewiring raised {describe_exc(e)}")
+        return "raised", d0, None, E, G0.number_of_nodes()
+    st, G = ctx.call(rsrc, mc.rewire, budget=400 * limit + 20000, label=f"rewire[{stream}]")
+    if st == "budget":
+        return "budget", d0, None, E, G0.number_of_nodes()
+    if st != "ok":
+        ctx.violate("C12.raised", f"rewire() on a directly built 2-clique network: {st} {describe_exc(G) if st == 'raised' else ''}")
+        return "raised", d0, None, E, G0.number_of_nodes()
+    after = netsim.ref_ejks(G, names)
+    d1 = sum(netsim.l1_distance(after[n], target[n]) for n in names)
+    return "ok", d0, d1, E, G0.number_of_nodes()
+
+
+def execute_oriented(sc, ctx):
+    """Bounded-step progress on a directly built 2-clique network, neutral start, mild target with consistent marginals,
+    |E| accepted swaps; vertex LABELS laid out by degree class (a joint degree sequence sorted by degree) or shuffled.
+    A failure on a label-sorted network whose label-shuffled twin (same build, same target) does approach carries the
+    fingerprint of the open finding FINDING; any other failure is reported."""
+    P = "C12"
+    st, d0, d1, E, n = oriented_run(sc, ctx, "u:rewire")
+    if st == "skip":
+        ctx.probe("oriented_skipped_initial_distance_small")
+        ctx.inconclusive += 1
+        return
+    if st == "budget":
+        ctx.inconclusive += 1
+        ctx.probe("oriented_budget_exhausted")
+        return
+    if st != "ok":
+        return
+    ratio = d1 / d0
+    ctx.ratio = ratio
+    ctx.swaps = E + 1
+    ctx.probe("oriented_runs")
+    ctx.probe(f"oriented_layout_{sc['layout']}")
+    if sc.get("prep"):
+        ctx.probe("oriented_prepared_start_runs")
+        ctx.probe("oriented_prepared_ratio_bucket_%d" % min(10, int(ratio * 10)))
+    ctx.check(f"{P}.approach")
+    if not d1 < d0:
+        detail = (f"L1 distance to the mildly {sc['mode']} full-support target went from {d0:.4f} to {d1:.4f} after "
+                  f"{E + 1} accepted swaps on a {n}-vertex 2-clique network ({E} edges, degrees {sc['degs']}) whose vertex "
+                  f"labels are in {sc['layout']} order of degree"
+                  + (f", start prepared by the harness at fraction {sc['prep']} of the way to the extreme {sc['mode']} matrix "
+                     f"(target: fraction {sc['frac']})" if sc.get("prep") else ""))
+        finding = None
+        if sc["layout"] != "shuffled":
+            cst, c0, c1, _, _ = oriented_run(dict(sc, layout="shuffled"), ctx, "u:rewire-control")
+            ctx.probe("oriented_control_runs")
+            if cst == "ok" and c1 < c0:
+                finding = FINDING
+                detail += f"; the same network with its labels shuffled approaches the same target ({c0:.4f} -> {c1:.4f})"
+            elif cst == "ok":
+                detail += f"; the same network with its labels shuffled does not approach it either ({c0:.4f} -> {c1:.4f})"
+        ctx.violate(f"{P}.approach", detail, finding=finding)
+    ctx.result(round(d0, 9), round(d1, 9))
+    if sc["layout"] == "shuffled":
+        ctx.probe("oriented_shuffled_ratio_x1000_sum", int(ratio * 1000))
+        ctx.probe("oriented_shuffled_ratio_bucket_%d" % min(10, int(ratio * 10)))
+
+
 def nontrivial(sc, ctx):
     return getattr(ctx, "swaps", 0) >= 1
 
@@ -188,6 +409,12 @@ def shrink(sc):
     if sc.get("kind") == "approach":
         if sc["N"] > 150:
             yield dict(sc, N=150)
+        return
+    if sc.get("kind") == "oriented":
+        if sc["m"] > 8:
+            yield dict(sc, m=(sc["m"] * 2 // 3) + (sc["m"] * 2 // 3) % 2)
+        if sc.get("search_limit") is not None:
+            yield dict(sc, search_limit=None)
         return
     from .c11 import shrink as s11
     for c in s11(sc):
